@@ -1758,7 +1758,9 @@ func (n *node) spawn(factory gen.ProcessFactory, options gen.ProcessOptionsExtra
 
 func (n *node) unregisterProcess(p *process, reason error) {
 	n.processes.Delete(p.pid)
+	lib.VerifPoint(p.pid, "unreg:deleted")
 	n.RouteTerminatePID(p.pid, reason)
+	lib.VerifPoint(p.pid, "unreg:drained")
 	// drop the links and monitors this process created on other targets
 	n.targetManager.CleanupConsumer(p.pid)
 
